@@ -231,14 +231,24 @@ def check(model, tier):
                 run.fail("R16.2", inst, "a doomed verdict is returned without any explanatory message on this path", fi=f, node=p.node, details=describe(p, 16))
         # ---- R16.3 exactness
         if verdict == "false" or (verdict == "child" and not child_doomed and kind == "UnaryOperationRelation"):
-            consulted = any(fct.args and fct.args[0] == exec_call for fct in flat) or any(fct.kind == "IS" and set(fct.args) == {"None", exe} and fct.polarity for fct in flat)
+            def _reason(fct, _kind=kind) -> bool:
+                """The fact alone explains why no verdict of emptiness could be reached."""
+                if fct.kind == "TRUTH" and fct.args[0] == exec_call:
+                    return True
+                if fct.kind == "IS" and set(fct.args) == {"None", exe} and fct.polarity:
+                    return True
+                if _kind == "UnaryOperationRelation" and fct.kind == "TRUTH" and fct.polarity and fct.args[0].endswith(".is_empty_invariant"):
+                    return True
+                if fct.kind == "OR":
+                    return all(any(_reason(x) for x in alt) for alt in fct.parts)
+                return False
+
+            consulted = any(_reason(fct) for fct in facts)
             if kind == "LeafRelation":
                 need = True
             elif kind == "UnaryOperationRelation":
                 need = not any(fct.kind == "TRUTH" and fct.polarity and fct.args[0].endswith(".is_empty_invariant") for fct in facts)
-                # operations that cannot empty their input need no executor
-                if any(fct.kind == "TRUTH" and fct.args[0].endswith(".is_empty_invariant") for fct in flat):
-                    consulted = consulted or any(fct.kind == "TRUTH" and fct.polarity and fct.args[0].endswith(".is_empty_invariant") for fct in flat)
+                # (operations that cannot empty their input need no executor: _reason accepts the flag as an explanation)
             elif kind == "BinaryOperationRelation":
                 need = any(s.kind == "case" and s.value and src(s.node.pattern).startswith("Join") for s in p.steps) or not any(  # type: ignore[union-attr]
                     s.kind == "case" and s.value and src(s.subject) != rel for s in p.steps
@@ -284,7 +294,31 @@ def check(model, tier):
         val = m.const_property(c, "is_empty_invariant")
         inst = f"flag:{c.name}.is_empty_invariant"
         if val is NONCONST:
-            raise AnalysisError(f"{c.name}.is_empty_invariant is no longer a constant")
+            fn = m.method(c, "is_empty_invariant")
+            if fn is None:
+                raise AnalysisError(f"{c.name}.is_empty_invariant is no longer a constant and no method defines it")
+            if not CAN_EMPTY[c.name]:
+                run.ok("R16.3", inst, {"value": "computed; the operation cannot empty its input, so a False only costs an execution"})
+                continue
+            # an operation that can empty its input may claim invariance only for an instance that provably keeps every row
+            rets = [p.value for p in ctx.paths(fn) if p.outcome == "return"]
+            bad = [
+                r
+                for r in rets
+                if not (isinstance(r, ast.Constant) and r.value is False)
+                and not (r is not None and src(r).replace(" ", "") in ("self.predicate.as_trivial()isTrue", "self.predicate.as_trivial()==True"))
+            ]
+            if bad:
+                run.fail(
+                    "R16.3",
+                    inst,
+                    f"{c.name}.is_empty_invariant is computed as `{src(bad[0])[:70]}`: the operation can turn a non-empty input into an empty output, and nothing but a "
+                    "predicate that folds to True guarantees that an instance does not - where the flag is wrongly True the executor is never asked and an empty relation is reported not doomed",
+                    fi=fn,
+                )
+            else:
+                run.ok("R16.3", inst, {"value": "computed: False, or True only for a trivially true predicate"})
+            continue
         if bool(val) == (not CAN_EMPTY[c.name]):
             run.ok("R16.3", inst, {"value": val})
         else:
